@@ -7,6 +7,7 @@ Mutating events under root are recorded by an audit hook and indexed 0.. in orde
   crash:        os._exit(77) when event `index` is about to happen
   error_event:  OSError(ENOSPC) raised from the hook at event `index` (open-for-write, mkdir, rename, remove)
   error_write:  the file opened by event `index` (an open-for-write) accepts half of the first write, then EFBIG
+  error_read:   OSError(ESTALE), once, when the file-open-for-reading number `index` under root is about to happen
   fsize:        the whole faulted phase runs under RLIMIT_FSIZE = `limit` bytes (kernel-level short writes, then EFBIG)
 """
 import builtins
@@ -37,8 +38,8 @@ def main():
         ConfigurationRepository(name="r", clusters={"c8": FunctionCluster(name="c8", storage=st)})]))
 
     fault = spec.get("fault")
-    state = {"n": 0, "armed": fault is not None, "pending_write_fault": None}
-    out = {"events": [], "results": [], "then": []}
+    state = {"n": 0, "reads": 0, "armed": fault is not None, "pending_write_fault": None}
+    out = {"events": [], "results": [], "then": [], "reads": 0}
 
     def flush_and_exit():
         sys.stdout.write(json.dumps(out) + "\n")
@@ -47,6 +48,13 @@ def main():
 
     def on_event(ev):
         if ev[0] == "open-r":
+            # files under the root opened for reading are counted separately; `error_read` makes the read number `index` fail once
+            r = state["reads"]
+            state["reads"] += 1
+            out["reads"] = state["reads"]
+            if state["armed"] and fault is not None and fault["kind"] == "error_read" and r == fault["index"]:
+                state["armed"] = False
+                raise OSError(errno.ESTALE, "injected: stale file handle", ev[1])
             return
         i = state["n"]
         state["n"] += 1
